@@ -1,4 +1,4 @@
-(* Executable model of utils.py: detect_format, split_sms, split_sms_udh (after fix 7e848a9:
+(* Executable model of utils.py: detect_format, split_sms, split_sms_udh (after fix 164ba1d:
    GSM texts are cut on septets), of the UCS2 codec (strict UTF-16BE), and of the segmentation
    block of ESME._dequeue_messages (esme.py:444-490) at the level of segment descriptors. *)
 From Coq Require Import ZArith List Bool.
